@@ -37,6 +37,19 @@ CLAIMED = {
         technique="Lean 4 proof (floor counting via Int.card_Ioc, interval integral of a floor, invariant induction over event lists) + exact correspondence at K=Q",
         note=TB + " Real MPI is not available (no libmpi): collectives are modelled; the code runs against harness/fakempi.py. searchsorted/cumsum float behaviour trusted away from ties (near-ties skipped by exact margin and counted).",
     ),
+    "C19": dict(
+        category="proof",
+        text=("Lean theorems over any linearly ordered field, every series length and admitted block size: mean = sum(we)/sum(w); "
+              "mean and every per-size error^2 invariant under w -> c w; mean shifts with and errors ignore an added constant; constant "
+              "data give error 0 at every size and the plateau search returns None; every admitted size leaves >= 2 blocks; block size 1 "
+              "= unbiased weighted-variance formula over n-1; jackknife estimates = brute-force leave-one-out ratios; outlier mask = "
+              "|x_i - med| < m (MAD + eps). Tied to the code by comparison with the exact rational model (means, error^2, plateau "
+              "decision, kept mask) and by the clauses evaluated on the implementation; i.i.d. ensemble agreement with the true standard "
+              "error is a seeded statistical test, labelled as such. The AR(1) 'grow towards and plateau' clause is not a theorem."),
+        design_ref="DESIGN.md §5/C19",
+        technique="Lean 4 proof (Finset sum algebra over an ordered field) + exact rational correspondence",
+        note=TB + " sqrt/IEEE rounding outside the model (error^2 carried exactly; decisions within 1e-7 of a tie skipped and counted); np.median convention modelled; ensemble clauses are tests.",
+    ),
 }
 
 NOT_YET = {}
